@@ -89,4 +89,54 @@ vpv_cell!(#[kani::unwind(50)] c40_array_float2, "C40/equivalence+hash/array[2] o
 vpv_cell!(#[kani::unwind(50)] c40_array_len, "C40/equivalence+hash/array length 1 vs 2 (int)", (a0: i64, b0: i64, b1: i64), {
     let x = Value::array(vec![Value::Int(a0)]); let y = Value::array(vec![Value::Int(b0), Value::Int(b1)]);
     let ok = !(x == y) && !(y == x) && x == x && y == y; std::mem::forget(x); std::mem::forget(y); ok });
-vpv_replay_table!(c40_scalar_null, c40_scalar_bool, c40_scalar_int, c40_scalar_float, c40_scalar_timestamp, c40_scalar_duration, c40_scalar_str, c40_cross_kind, c40_cross_kind_str, c40_float_special, c40_array_float2, c40_array_len);
+
+// ---- the Map arm: BOUNDED STAND-IN (native enumeration).  Building two IndexMaps inside CBMC does not finish (hash-map insertion), so maps are
+// checked natively: every map of <= 3 entries over the keys a, b, c and 6 values (ints, NaN, -0.0, 0.0, a string, a nested map), in EVERY insertion
+// order, alone and nested inside an array and inside another map: == is reflexive and symmetric, and equal values have equal hashes.
+#[cfg(vpv_replay)]
+pub fn c40_std_hash(v: &Value) -> u64 { let mut h = std::collections::hash_map::DefaultHasher::new(); v.hash(&mut h); h.finish() }
+#[cfg(vpv_replay)]
+pub fn c40_perms(n: usize) -> Vec<Vec<usize>> {
+    if n == 0 { return vec![vec![]]; }
+    let mut out = Vec::new();
+    for p in c40_perms(n - 1) { for pos in 0..=p.len() { let mut q = p.clone(); q.insert(pos, n - 1); out.push(q); } }
+    out
+}
+vpv_native!(c40_map_insertion_order, "C40/Value::eq + Hash, Map arm/maps with the same entries inserted in different orders are equal and have equal hashes, also when nested (native enumeration: <= 3 entries over 3 keys x 6 values, every insertion order)", {
+    let mut inner = FxIndexMap::default();
+    inner.insert(Arc::<str>::from("x"), Value::Int(1)); inner.insert(Arc::<str>::from("y"), Value::Float(2.5));
+    let mut inner_rev = FxIndexMap::default();
+    inner_rev.insert(Arc::<str>::from("y"), Value::Float(2.5)); inner_rev.insert(Arc::<str>::from("x"), Value::Int(1));
+    let vals: Vec<(&str, Value)> = vec![("1", Value::Int(1)), ("NaN", Value::Float(f64::NAN)), ("-0.0", Value::Float(-0.0)), ("0.0", Value::Float(0.0)),
+                                         ("\"s\"", Value::Str("s".into())), ("{x:1,y:2.5}", Value::map(inner.clone()))];
+    let keys = ["a", "b", "c"];
+    let mut ok = true; let mut shown = 0;
+    for n in 0..=3usize {
+        let total = vals.len().pow(n as u32);
+        for code in 0..total {
+            let mut pick = Vec::new(); let mut c = code; for _ in 0..n { pick.push(c % vals.len()); c /= vals.len(); }
+            let orders = c40_perms(n);
+            let build = |ord: &Vec<usize>| { let mut m = FxIndexMap::default(); for &i in ord { m.insert(Arc::<str>::from(keys[i]), vals[pick[i]].1.clone()); } Value::map(m) };
+            let first = build(&orders[0]);
+            for ord in &orders {
+                let label = || format!("entries {{{}}} inserted in order {:?} vs order {:?}", (0..n).map(|i| format!("{}: {}", keys[i], vals[pick[i]].0)).collect::<Vec<_>>().join(", "), orders[0], ord);
+                let good = vpv_enum_try(label, || {
+                    let other = build(ord);
+                    let eq_ok = first == other && other == first && other == other;
+                    let hash_ok = c40_std_hash(&first) == c40_std_hash(&other);
+                    let (na, nb) = (Value::array(vec![Value::Int(0), first.clone()]), Value::array(vec![Value::Int(0), other.clone()]));
+                    let mut wa = FxIndexMap::default(); wa.insert(Arc::<str>::from("k"), first.clone());
+                    let mut wb = FxIndexMap::default(); wb.insert(Arc::<str>::from("k"), other.clone());
+                    let (ma, mb) = (Value::map(wa), Value::map(wb));
+                    if !eq_ok { println!("  equality fails"); }
+                    if !hash_ok { println!("  equal maps, different hashes: {:#x} vs {:#x}", c40_std_hash(&first), c40_std_hash(&other)); }
+                    eq_ok && hash_ok && na == nb && c40_std_hash(&na) == c40_std_hash(&nb) && ma == mb && c40_std_hash(&ma) == c40_std_hash(&mb)
+                });
+                if !good { ok = false; shown += 1; if shown >= 3 { return false; } }
+            }
+        }
+    }
+    let (a, b) = (Value::map(inner), Value::map(inner_rev));
+    ok && a == b && c40_std_hash(&a) == c40_std_hash(&b)
+});
+vpv_replay_table!(c40_scalar_null, c40_scalar_bool, c40_scalar_int, c40_scalar_float, c40_scalar_timestamp, c40_scalar_duration, c40_scalar_str, c40_cross_kind, c40_cross_kind_str, c40_float_special, c40_array_float2, c40_array_len, c40_map_insertion_order);
